@@ -29,7 +29,8 @@ LenOf(nl, t, ix) == nl[CHOOSE k \in GroupAt(nl, t) : nl[k].i = ix].l
 \* The "well-formed instrument section" of C02-C05 (N lines only; S/E lines are unconstrained)
 WellFormedTrack(nl) ==
   /\ \A k \in 1..(Len(nl) - 1) : nl[k].t <= nl[k+1].t                       \* tick order
-  /\ \A j, k \in DOMAIN nl : (j # k /\ nl[j].t = nl[k].t) => nl[j].i # nl[k].i   \* one line per index
+  \* one line per lane / open index per tick (a flag is a flag however often its line is written)
+  /\ \A j, k \in DOMAIN nl : (j # k /\ nl[j].t = nl[k].t /\ nl[j].i \notin {IdxForced, IdxTap}) => nl[j].i # nl[k].i
   \* (a tick that carries flag lines only is the EMPTY lane subset: a note with no active lane, whose flags count and whose
   \*  flag lines contribute no length - "forall lane subsets", C03)
   /\ \A t \in TicksOf(nl) : ~(LanesAt(nl, t) # {} /\ IsOpenAt(nl, t))       \* open is not a lane of a chord
